@@ -8,6 +8,7 @@ proceeds*, at every yielded event, from the pull counter of the source the simul
 from .. import medium, model, real, world
 from ..runner import HarnessError, Result
 from . import common
+from ..layout import layout
 
 ID = "C10"
 LEVEL = "exploration"
@@ -24,7 +25,39 @@ TIERS = {"quick": {"runs": 12000, "budget": 75}, "thorough": {"runs": 300000, "b
 OTHER_KINDS = ("bytes", "bytearray", "list", "tuple", "memoryview", "array", "iter", "gen", "byteobjs", "realfile")
 
 
+def distinct_stream(rng):
+    """one exchange per command code, every command with a session that has decrypt and encrypt set (whether or not the
+    command has a size-prefixed first parameter - the decoder then asks for the encrypted variant of every parameter
+    layout there is): a capture of a test-suite run, the kind of traffic this tool is pointed at"""
+    from .. import gen
+    L = layout()
+    k = gen.Knobs(rng)
+    k.max_buf, k.max_list, k.p_fail = min(k.max_buf, 4), min(k.max_list, 1), 0.0
+    g = gen.Gen(rng, k)
+    ccs = sorted(L.commands)
+    rng.shuffle(ccs)
+    data = b""
+    bounds = [0]
+    for cc in ccs:
+        cmd, _ = g.command(cc=cc, n_sessions=1, enc=False, resp_enc=False)
+        cb, items = gen.serialise(cmd)
+        at = next(it for it in items if it[0] == "P" and it[1].endswith(".sessionAttributes"))
+        b = bytearray(cb)
+        b[at[4]] |= 0x60
+        rsp = g.response(cc, enc=False, fail=False, n_sessions=1)
+        rb, ritems = gen.serialise(rsp)
+        data += bytes(b) + rb
+        bounds += [len(data) - len(rb), len(data)]
+    return data, bounds
+
+
 def make_case(i, rng, tier):
+    if rng.random() < 0.0012:
+        data, bounds = distinct_stream(rng)
+        k = bounds[-1] - rng.choice((3, 1, 7))
+        mk = lambda tid, d: common.spec(tid, model.STREAM, d, None, None, strict=False, source="bytes")
+        return {"input": {"root": model.STREAM, "cc": None, "enc": None, "label": "distinct-stream:%d" % (len(bounds) // 2), "cut": k, "len": len(data), "mode": "distinct"},
+                "tasks": [mk("whole", data), mk("prefix", data[:k])], "schedule": {"policy": "sequential", "order": ["whole", "prefix"] if rng.random() < 0.5 else ["prefix", "whole"]}}
     inp = common.gen_input(rng, common.target_for(i, rng), huge="lite")
     data = inp["data"]
     o = model.decode(inp["root"], data, cc=inp["cc"], enc=inp["enc"])
@@ -84,6 +117,18 @@ def check(case):
     w = common.run_world(case, res)
     label = "%s cut %d/%d" % (case["input"]["label"], case["input"]["cut"], case["input"]["len"])
     whole, pre = w.tasks["whole"], w.tasks["prefix"]
+    if case["input"].get("mode") == "distinct":
+        # only the prefix clause, with == on the real events (declared types are compared by identity)
+        n_ = sum(1 for it in pre.items if it[0] != "W")
+        a_, b_ = [e for e, it in zip(pre.events, pre.items) if it[0] != "W"], [e for e, it in zip(whole.events, whole.items) if it[0] != "W"][:n_]
+        if a_ != b_:
+            j_ = next((x for x, (p_, q_) in enumerate(zip(a_, b_)) if p_ != q_), min(len(a_), len(b_)))
+            same = j_ < min(len(a_), len(b_)) and real.ev_item(a_[j_]) == real.ev_item(b_[j_])
+            res.v("C10.b", "C10.b:prefix:%s" % ("type-identity" if same else "events"), "%s: the events of the prefix are not a prefix (==) of the events of the whole "
+                  "capture: event %d differs%s" % (label, j_, " (comparable forms equal, declared type objects differ)" if same else ""))
+        res.count("distinct-stream-prefix-compared")
+        res.nontrivial("distinct", whole.spec["data"][:64], case["input"]["cut"])
+        return res
     if whole.exc_sum is not None:
         res.count("cross:whole-raised")
         return res
@@ -127,6 +172,9 @@ def check(case):
                 break
     # (b) prefix stability, (c) completeness
     k = case["input"]["cut"]
+    if pre.items == whole.items[:len(pre.items)] and pre.events != whole.events[:len(pre.events)]:
+        res.v("C10.b", "C10.b:prefix:type-identity", "%s: the events of the prefix equal the first events of the whole input in every comparable form, but not with == "
+              "(declared type objects differ)" % label)
     if pre.items != whole.items[:len(pre.items)]:
         res.v("C10.b", "C10.b:prefix", "%s: %s" % (label, common.show_diff(pre.items, whole.items[:len(pre.items)], "prefix events vs events of the whole input")))
     cumw = widths(whole.items)
